@@ -29,6 +29,17 @@ different violation in the same case is still reported):
 """)
 for f in kf['findings']:
     t.append("* **%s** (%s): %s\n" % (f['id'], f['property'], f['title']))
+def _unchanged(m):
+    st = (m.get('strengthening') or '').lower()
+    return st.startswith('none') or st.startswith('no change') or st.startswith('caught by the tier as it stood')
+_rounds = {}
+for m in seeds:
+    r = m['id'][-1]
+    a = _rounds.setdefault(r, [0, 0])
+    a[1] += 1
+    if 'strengthening' in m and _unchanged(m):
+        a[0] += 1
+ROUND_STATS = ", ".join("round %d: %s of %d" % (ord(r) - 96, (str(v[0]) if r != 'a' else "all (after the round-1 strengthening listed below the table)"), v[1]) for r, v in sorted(_rounds.items()))
 t.append("""
 ## 14. Seeded property-breaking changes and detection
 
@@ -36,11 +47,19 @@ One fresh sub-agent per seed was given only the property text and a scratch work
 that compiles, passes the unedited suite and needs something specific to manifest. Each was re-confirmed with
 `tools/verify_seed.py` in its worktree (suite 145 passed with the patch; demonstration fails with it and passes without it)
 and filed under `seeded/<id>/` (patch.diff, demo/, notes.md, meta.json). `tools/try_seed.sh <id> <Cxx>` applies the patch to
-/repo, runs the check and restores the tree. Results:
+/repo, runs the check and restores the tree; from round 3 on the seeds are exercised in a private lane instead
+(`tools/lane.sh`: a scratch worktree of /repo plus a copy of /verif under /tmp/lane), first with the framework as it stood
+before the seed's summary was read (the honest 'caught unchanged?' answer), then with the current one; `tools/lane.sh run`
+without arguments is the regression over all filed seeds.
+
+Rounds (suffix a..f = round 1..6). The last column says whether the tier as it stood caught the seed. Per round, seeds caught
+without any change to the framework: %s. The misses are what drove the systematic families of section 12: every miss was
+turned into a dimension of a product (not into a copy of the seed's input), and every filed seed is caught by the current
+quick tier of its property.
 
 | seed | what it needs to manifest | caught by | check changed because of this seed? |
 |---|---|---|---|
-""")
+""" % ROUND_STATS)
 for m in seeds:
     det = "; ".join("%s %s: %s" % (d['check'], d['tier'], d['result']) for d in m.get('detected_by', [])) or "(not yet run)"
     t.append("| %s | %s | %s | %s |\n" % (m['id'], m.get('needs', '').replace('|', '/'), det.replace('|', '/'), m.get('strengthening', '(round 1: see the list below the table)').replace('|', '/')))
